@@ -1,5 +1,6 @@
 import SafeNet.Model.Upgrade
 import SafeNet.Proofs.ArgTable
+import SafeNet.Proofs.ArgParse
 /-!
 # C20 — upgraded services keep every setting, and antnode accepts what antctl writes
 
@@ -239,9 +240,115 @@ theorem no_conflicting_flags (σ : Valuation) (hσ : InputConflictFree σ) :
    fun e₁ h₁ e₂ h₂ g₁ g₂ n₁ n₂ d₁ d₂ f₁ f₂ l₁ l₂ =>
       no_conflict_of upgradePre upgrade_conflicts_are_input_conflicts σ hσ e₁ e₂ h₁ h₂ g₁ g₂ n₁ n₂ d₁ d₂ f₁ f₂ l₁ l₂⟩
 
+/-- `antctl add` cannot create the `--first` / `--peer` conflict after its own parser has run: the only
+post-parse change of `PeersArgs` (appending the `ANT_PEERS` environment variable to `--peer`) is skipped
+for a genesis node, so `InputConflictFree` holds for every record `antctl add` hands to `add_node`. -/
+theorem ant_peers_env_respects_first : envPeersSkippedForFirst = true := by decide
+
 /-- Non-vacuity: the conflict rules exist and are the three of `PeersArgs`. -/
 example : inputConflictPairs.length = 3 := by decide
 example : (conflictPairs installPre).length = 3 := by decide
+
+
+/-! ## Clause 3: the clap-subset parser maps the written arguments back to the intended settings -/
+
+theorem install_pre_ids_nodup : (installPre.filterMap (entryId activeTop)).Nodup := by decide
+theorem upgrade_pre_ids_nodup : (upgradePre.filterMap (entryId activeTop)).Nodup := by decide
+theorem install_post_ids_nodup : (installPost.filterMap (entryId customDecls)).Nodup := by decide
+theorem upgrade_post_ids_nodup : (upgradePost.filterMap (entryId customDecls)).Nodup := by decide
+
+/-- The specification of what each antctl setting means for antnode: which argument of antnode's `Opt`
+(clap id) is given, under which condition, with which value (all in terms of `add_node`'s expressions). -/
+def intent : List (Option String × Guard × Option (Src × Render)) := [
+  (some "rpc", .always, some (.var ["rpc_socket_addr"], .display)),
+  (some "root_dir", .always, some (.var ["service_data_dir_path"], .lossy)),
+  (some "log_output_dest", .always, some (.var ["service_log_dir_path"], .lossy)),
+  (some "first", .isTrue (.var ["options", "peers_args", "first"]), none),
+  (some "local", .isTrue (.var ["options", "peers_args", "local"]), none),
+  (some "addrs", .nonEmpty (.var ["options", "peers_args", "addrs"]), some (.var ["options", "peers_args", "addrs"], .joinComma)),
+  (some "network_contacts_url", .nonEmpty (.var ["options", "peers_args", "network_contacts_url"]),
+    some (.var ["options", "peers_args", "network_contacts_url"], .joinComma)),
+  (some "testnet", .isTrue (.var ["options", "peers_args", "disable_mainnet_contacts"]), none),
+  (some "ignore_cache", .isTrue (.var ["options", "peers_args", "ignore_cache"]), none),
+  (some "bootstrap_cache_dir", .isSome (.var ["options", "peers_args", "bootstrap_cache_dir"]),
+    some (.var ["options", "peers_args", "bootstrap_cache_dir"], .lossy)),
+  (some "network_id", .isSome (.var ["options", "network_id"]), some (.var ["options", "network_id"], .display)),
+  (some "home_network", .isTrue (.var ["options", "home_network"]), none),
+  (some "log_format", .isSome (.var ["options", "log_format"]), some (.var ["options", "log_format"], .asStr)),
+  (some "upnp", .isTrue (.var ["options", "upnp"]), none),
+  (some "ip", .isSome (.var ["options", "node_ip"]), some (.var ["options", "node_ip"], .display)),
+  (some "port", .isSome (.var ["node_port"]), some (.var ["node_port"], .display)),
+  (some "metrics_server_port", .isSome (.var ["metrics_free_port"]), some (.var ["metrics_free_port"], .display)),
+  (some "owner", .isSome (.var ["owner"]), some (.var ["owner"], .display)),
+  (some "max_archived_log_files", .isSome (.var ["options", "max_archived_log_files"]),
+    some (.var ["options", "max_archived_log_files"], .display)),
+  (some "max_log_files", .isSome (.var ["options", "max_log_files"]), some (.var ["options", "max_log_files"], .display)),
+  (some "rewards_address", .always, some (.var ["options", "rewards_address"], .display))]
+
+def intentCustom : List (Option String × Guard × Option (Src × Render)) := [
+  (some "rpc_url", .evmCustom evmSrc, some (.var ["options", "evm_network", "rpc_url_http"], .display)),
+  (some "payment_token_address", .evmCustom evmSrc, some (.var ["options", "evm_network", "payment_token_address"], .display)),
+  (some "data_payments_address", .evmCustom evmSrc, some (.var ["options", "evm_network", "data_payments_address"], .display))]
+
+/-- The install table sets exactly the intended antnode arguments, from the intended sources. -/
+theorem install_table_is_intent :
+    installPre.map (fun e => (entryId activeTop e, e.guard, e.value)) = intent ∧
+    installPost.map (fun e => (entryId customDecls e, e.guard, e.value)) = intentCustom := by decide
+
+/-- antnode's top-level arguments as intended by the option record: every setting that is present sets
+its argument (per `intent`, see `install_table_is_intent`), everything else stays absent. -/
+def intendedTop (σ : Valuation) : Slots := slotsAfter evmDisplay activeTop σ installPre Slots.empty
+def intendedSub (σ : Valuation) : Slots := slotsAfter evmDisplay customDecls σ installPost Slots.empty
+
+/-- **parse_build_is_intended.** For every option record (EVM network one of the known variants) on which
+clap's final checks pass for the intended configuration — required arguments of the subcommand,
+`conflicts_with`, `required_if_eq` (hypotheses `htop`, `hsub`; `no_conflicting_flags` discharges the
+conflict part for inputs antctl can parse) — the clap-subset parser accepts the arguments written at
+installation and returns exactly the intended configuration and the subcommand of the record's network. -/
+theorem parse_build_is_intended (σ : Valuation) (v : String)
+    (hv : σ ["options", "evm_network"] = .evm v) (hmem : v ∈ evmDisplay.map (·.1))
+    (htop : finalChecks activeTop (intendedTop σ) = .ok ())
+    (hsub : finalChecks (subDecls activeSubs (lookupD evmDisplay v)) (intendedSub σ) = .ok ()) :
+    ∃ x, activeSubs.find? (fun x => x.1 == lookupD evmDisplay v) = some x ∧
+      parseArgs (buildInstall σ) = .ok ⟨intendedTop σ, some (x.2.1, intendedSub σ)⟩ := by
+  rw [buildInstall_eq]
+  exact parse_of_shape evmDisplay activeTop activeSubs _ _ _ evmSrc install_shape install_pre_declared
+    install_post_declared words_are_subcommands install_pre_ids_nodup install_post_ids_nodup σ v hv hmem htop hsub
+
+/-- The same for the arguments regenerated at upgrade (its own closed form; the items are a
+permutation of the installed ones by `upgrade_args_equiv`). -/
+theorem parse_upgrade_accepted (σ : Valuation) (v : String)
+    (hv : σ ["options", "evm_network"] = .evm v) (hmem : v ∈ evmDisplay.map (·.1))
+    (htop : finalChecks activeTop (slotsAfter evmDisplay activeTop σ upgradePre Slots.empty) = .ok ())
+    (hsub : finalChecks (subDecls activeSubs (lookupD evmDisplay v))
+              (slotsAfter evmDisplay customDecls σ upgradePost Slots.empty) = .ok ()) :
+    ∃ x, activeSubs.find? (fun x => x.1 == lookupD evmDisplay v) = some x ∧
+      parseArgs (buildUpgrade (recordOf σ)) =
+        .ok ⟨slotsAfter evmDisplay activeTop σ upgradePre Slots.empty,
+             some (x.2.1, slotsAfter evmDisplay customDecls σ upgradePost Slots.empty)⟩ := by
+  rw [buildUpgrade_eq]
+  exact parse_of_shape evmDisplay activeTop activeSubs _ _ _ evmSrc upgrade_shape upgrade_pre_declared
+    upgrade_post_declared words_are_subcommands upgrade_pre_ids_nodup upgrade_post_ids_nodup σ v hv hmem htop hsub
+
+/-- Non-vacuity: a concrete record (home network, custom EVM network) is parsed back as intended. -/
+def exampleRecord : Valuation := fun p =>
+  if p = ["options", "evm_network"] then .evm "Custom"
+  else if p = ["options", "home_network"] then .bool true
+  else if p = ["options", "peers_args", "addrs"] then .list ["a", "b"]
+  else if p = ["options", "evm_network", "rpc_url_http"] then .opt (some "http://x/")
+  else if p = ["options", "evm_network", "payment_token_address"] then .opt (some "0x1")
+  else if p = ["options", "evm_network", "data_payments_address"] then .opt (some "0x2")
+  else if p = ["rpc_socket_addr"] then .opt (some "127.0.0.1:1")
+  else .opt none
+
+example : (match parseArgs (buildInstall exampleRecord) with
+    | .ok p => (p.top "home_network", p.top "addrs", p.top "first", p.sub.map (fun s => (s.1, s.2 "rpc_url")))
+    | .error _ => (.absent, .absent, .absent, none)) =
+    (.set, .many ["a", "b"], .absent, some ("EvmCustom", .one "http://x/")) := by decide
+
+/-- … and the conflicting record `--first` + `--peer` is rejected by the parser (as by clap). -/
+example : (match parseArgs (buildInstall (fun p => if p = ["options", "peers_args", "first"] then .bool true else exampleRecord p)) with
+    | .ok _ => "ok" | .error (.conflict a b) => a ++ "/" ++ b | .error _ => "other") = "addrs/first" := by decide
 
 #print axioms SafeNet.Props.C20.upgrade_args_equiv
 #print axioms SafeNet.Props.C20.upgrade_settings_equiv
@@ -250,6 +357,10 @@ example : (conflictPairs installPre).length = 3 := by decide
 #print axioms SafeNet.Props.C20.upgrade_environment_override
 #print axioms SafeNet.Props.C20.every_flag_declared
 #print axioms SafeNet.Props.C20.no_conflicting_flags
+#print axioms SafeNet.Props.C20.ant_peers_env_respects_first
+#print axioms SafeNet.Props.C20.install_table_is_intent
+#print axioms SafeNet.Props.C20.parse_build_is_intended
+#print axioms SafeNet.Props.C20.parse_upgrade_accepted
 #print axioms SafeNet.Props.C20.word_selects_same_network
 #print axioms SafeNet.Props.C20.log_format_values_accepted
 
